@@ -520,6 +520,7 @@ def streams(tier):
         Stream("mutated-fixtures", "hyp", n, 16, fixture_cases, timeout_s=10),
         Stream("structured-hostile", "hyp", n, 12, hostile_cases, timeout_s=10),
         Stream("isolation", "hyp", n // 2, 8, isolate_cases, timeout_s=10),
+        Stream("every-property-name", "fixed", 0, 8, _name_sweep, True, False, timeout_s=10),
         Stream("hostile-under-python-O", "hyp", 30 if tier == "quick" else 200, 16, lambda: st.one_of(hostile_cases(), hostile_cases(only=["vtimezone", "vtimezone-edge", "vtimezone-edge"]), hostile_cases(only=["vtimezone-edge"]), isolate_cases()).map(lambda c: dict(c, interp="-O")), timeout_s=600),
     ] + ([Stream("atheris-bytes", "custom", 0, 8, _atheris, timeout_s=10),
           # expensive (each case runs into the watchdog and is confirmed in a fresh process): thorough tier only
@@ -534,6 +535,32 @@ def _sparse_rule_cases(draw):
     lines = ["BEGIN:VCALENDAR", "BEGIN:VTIMEZONE", "TZID:custom", "BEGIN:STANDARD", "DTSTART:19700101T000000", "TZOFFSETFROM:+0100", "TZOFFSETTO:+0200", "END:STANDARD",
              "BEGIN:DAYLIGHT", f"DTSTART:{start}", "TZOFFSETFROM:+0100", "TZOFFSETTO:+0200", f"RRULE:{rule}", "END:DAYLIGHT", "END:VTIMEZONE", "END:VCALENDAR"]
     return {"gen": "hostile", "what": "vtimezone", "lines": lines}
+
+
+# property names of RFC 5545, 7986, 9073, 9074 and common extensions (own list) - plus whatever the library's own table names
+IANA_NAMES = ["CALSCALE", "METHOD", "PRODID", "VERSION", "ATTACH", "CATEGORIES", "CLASS", "COMMENT", "DESCRIPTION", "GEO", "LOCATION", "PERCENT-COMPLETE",
+              "PRIORITY", "RESOURCES", "STATUS", "SUMMARY", "COMPLETED", "DTEND", "DUE", "DTSTART", "DURATION", "FREEBUSY", "TRANSP", "TZID", "TZNAME",
+              "TZOFFSETFROM", "TZOFFSETTO", "TZURL", "ATTENDEE", "CONTACT", "ORGANIZER", "RECURRENCE-ID", "RELATED-TO", "URL", "UID", "EXDATE", "EXRULE", "RDATE",
+              "RRULE", "ACTION", "REPEAT", "TRIGGER", "CREATED", "DTSTAMP", "LAST-MODIFIED", "SEQUENCE", "REQUEST-STATUS", "NAME", "REFRESH-INTERVAL", "SOURCE",
+              "COLOR", "IMAGE", "CONFERENCE", "ACKNOWLEDGED", "PROXIMITY", "LOCATION-TYPE", "PARTICIPANT-TYPE", "RESOURCE-TYPE", "CALENDAR-ADDRESS",
+              "STYLED-DESCRIPTION", "STRUCTURED-DATA", "BUSYTYPE", "TZUNTIL", "TZID-ALIAS-OF", "X-WR-CALNAME", "X-MOZ-LASTACK", "X-MOZ-SNOOZE-TIME", "X-ANYTHING"]
+
+
+def _name_sweep():
+    """every known property name x a few values x lenient and strict components: a table entry that names a missing type, or a
+    type whose decoder lets another exception through, fails the totality clause for that one name"""
+    try:
+        from icalendar.prop import TypesFactory
+        names = sorted(set(IANA_NAMES) | {str(k).upper() for k in TypesFactory.types_map})
+    except Exception:  # noqa: BLE001
+        names = IANA_NAMES
+    out = []
+    for nm in names:
+        for value in ("x", "", "1", "20200101T000000Z", "mailto:a@example.com"):
+            for comp in ("VEVENT", "VTODO", "VCALENDAR"):
+                inner = [f"{nm}:{value}"] if comp == "VCALENDAR" else [f"BEGIN:{comp}", f"{nm.lower() if value == '1' else nm}:{value}", f"END:{comp}"]
+                out.append({"gen": "hostile", "what": "name-sweep", "lines": ["BEGIN:VCALENDAR"] + inner + ["END:VCALENDAR"]})
+    return out
 
 
 def _atheris(ctx):
